@@ -227,6 +227,22 @@ func (ss *segmentStack) ensureFullySorted() {
 	}
 }
 
+// hasMergeOperations returns true if any segment of the stack or of its
+// child stacks holds an unresolved merge operation.
+func (ss *segmentStack) hasMergeOperations() bool {
+	for _, seg := range ss.a {
+		if a, ok := seg.(*segment); !ok || a.totOperationMerge > 0 {
+			return true
+		}
+	}
+	for _, childSegStack := range ss.childSegStacks {
+		if childSegStack.hasMergeOperations() {
+			return true
+		}
+	}
+	return false
+}
+
 func (ss *segmentStack) isEmpty() bool {
 	if len(ss.a) > 0 {
 		return false
